@@ -7,6 +7,12 @@ Decides over everything reachable from Parser::parse_sql (lexer and parser):
       entry of the reviewed table below (one reason each); anything else is a finding;
  (R2) every recursive cycle of the call graph passes through a function that enforces a nesting limit (compares a
       depth counter with a bound and returns an error) — otherwise arbitrarily deep input overflows the stack;
+ (R3') saturating progress: Parser::advance does not move at the end of input, so "calls advance" is progress only before
+      Eof.  Every parser loop is walked again under the assumption "the current token is Eof" (the discriminant of a Token
+      obtained from peek()/peek_next()/peek_at_offset() is Eof's, bool helpers that are constant at Eof - peek_keyword,
+      is_join_keyword: false - are replaced by the constant, constants assigned to temporaries are followed to their test):
+      no cycle may remain that avoids every call that can fail or is decided by its own loop rule (parse_*, expect_*,
+      an iterator step, the caller's item parser).  A skip loop that only counts parentheses spins forever on `ENUM(`;
  (R3) loop progress: in every loop of the lexer and the parser, each cycle of the control-flow graph contains a call
       that consumes input (reaches Parser::advance / Lexer::advance) or pulls from an iterator.
 The temporal literal parsers in vibesql_types that the parser calls (DATE/TIME/TIMESTAMP/INTERVAL '...') are inventoried by C22.
@@ -14,7 +20,8 @@ Does NOT decide time bounds beyond progress, nor recursion in Drop of the produc
 import re
 from ..engine.facts import callee_name
 from ..engine.callgraph import CallGraph
-from ..engine.cfg import cfg
+from ..engine.cfg import cfg, defs_of, op_local, op_const, op_place, term_succs
+from ..engine.paths import switch_target
 from ..engine.panics import may_panic_sites, auto_discharge, recursive_components, cycle_without
 from ..engine.symexpr import Sym
 
@@ -145,6 +152,12 @@ def run(ctx):
         if p in prog.fns and (cg.reach([p]) & adv):
             consumers.add(prog.fns[p].nice)
     nloops = 0
+    nsat = [0]
+    tok = prog.adts.get('vibesql_lexer::token::Token') or next((a for p_, a in prog.adts.items() if p_.endswith('token::Token')), None)
+    ctx.require(tok is not None, 'Token ADT not found')
+    eof_discr = next(int(v.get('discr', i)) for i, v in enumerate(tok['variants']) if v['name'] == 'Eof')
+    summaries = {}
+    ndecided = []
     for f in fns:
         for g_ in [f] + prog.children(f):
             if g_.dk == 'Promoted':
@@ -164,6 +177,28 @@ def run(ctx):
                             prog_blocks.add(b)
                 adj = {b: [x for x in gg.succ[b] if x in comp] for b in comp}
                 cyc = cycle_without(adj, list(comp), prog_blocks)
+                # R3': under the assumption "the current token is Eof" no cycle may remain that lacks a fallible consumer
+                if 'parser::' in g_.nice and 'lexer' not in g_.nice:
+                    breakers = set()
+                    for b in comp:
+                        t = g_.blocks[b]['t']
+                        if t['k'] != 'call':
+                            continue
+                        cn = callee_name(t) or ''
+                        if re.search(r'(Parser|Lexer)(>)?::advance$', cn):
+                            continue
+                        if b in prog_blocks or (t['f'].get('ptr') or 'FnMut' in cn or 'Fn>::call' in cn or 'FnOnce' in cn):
+                            # a consumer other than the bare advance (parse_*, expect_*, consume_*: they fail at the end of input or
+                            # are decided by their own loop rule), an iterator step, or the item parser handed in by the caller
+                            breakers.add(b)
+                    ew = _EofWalk(prog, g_, eof_discr, summaries)
+                    cyc2 = ew.cycle(set(comp), breakers)
+                    nsat[0] += 1
+                    if not cyc2 and _EofWalk(prog, g_, None, {}).cycle(set(comp), breakers):
+                        ndecided.append(g_.nice.rsplit('::', 1)[1])
+                    if cyc2:
+                        ctx.finding(f"R3'/{g_.nice}", f'{g_.nice}: at the end of input (peek() == Eof, Parser::advance stays put) the loop through lines '
+                                    f'{sorted({g_.blocks[b]["t"]["l"] for b in cyc2})[:6]} repeats without a call that can fail: truncated input makes the parser spin forever', g_.loc)
                 if cyc:
                     key = f'R3/{g_.nice}/loop@{min(comp)}'
                     if _is_position_loop(g_, cyc):
@@ -172,6 +207,11 @@ def run(ctx):
                                 f'{sorted({g_.blocks[b]["t"]["l"] for b in cyc})[:6]})', g_.loc)
     ctx.instance('R3/loops', {'rule': 'C23.R3', 'loops_examined': nloops, 'consuming_functions': len(consumers)})
     ctx.floor('C23.R3 loops examined', nloops, 60)
+    ctx.extra['parser_loops_evaluated_at_eof'] = nsat[0]
+    ctx.extra['loops_that_terminate_only_because_of_their_eof_exit'] = sorted(ndecided)
+    ctx.floor("C23.R3' loops whose termination rests on the Eof exit", len(ndecided), 5)
+    ctx.extra['bool_helpers_constant_at_eof'] = {k.rsplit('::', 1)[1]: v for k, v in summaries.items() if v is not None}
+    ctx.floor("C23.R3' parser loops evaluated at the end of input", nsat[0], 40)
 
 
 def _is_test(f):
@@ -240,3 +280,163 @@ def _is_position_loop(f, cyc):
             if 'd' in st and st['v']['r'] == 'bin' and st['v']['op'] in ('AddWithOverflow', 'Add', 'SubWithOverflow', 'Sub'):
                 return True
     return False
+
+
+class _EofWalk:
+    """Abstract walk of one function under the assumption that the current token is Eof: the discriminant of a Token obtained from
+    peek()/peek_next()/peek_at_offset() is the discriminant of Token::Eof, constants assigned to temporaries are remembered until the
+    temporary is tested, bool helpers that are constant at Eof (peek_keyword: false) are replaced by that constant; every other test
+    keeps both successors."""
+    PEEK = re.compile(r'Parser(>)?::(peek|peek_next|peek_at_offset)$')
+
+    def __init__(self, prog, fn, eof_discr, summaries):
+        self.prog, self.fn, self.eof, self.summaries = prog, fn, eof_discr, summaries
+        self.defs = defs_of(fn)
+
+    def _from_peek(self, local, depth=0):
+        ds = self.defs.get(local, [])
+        if len(ds) != 1 or depth > 4:
+            return False
+        kind, val = ds[0][1], ds[0][2]
+        if kind == 'call':
+            return bool(self.PEEK.search(callee_name(val) or ''))
+        if kind == 'assign' and val['r'] in ('use', 'cast') and op_local(val['a']) is not None:
+            return self._from_peek(op_local(val['a']), depth + 1)
+        if kind == 'assign' and val['r'] == 'ref':
+            return self._from_peek(val['p'][0], depth + 1)
+        return False
+
+    def step(self, b, env):
+        """successor states of (block b, env) -> [(block, env)]"""
+        fn = self.fn
+        env = dict(env)
+        for st in fn.blocks[b]['s']:
+            if 'd' not in st or st['d'][1]:
+                if 'd' in st:
+                    env.pop(st['d'][0], None)
+                continue
+            d, v = st['d'][0], st['v']
+            env.pop(d, None)
+            if self.eof is not None and v['r'] == 'discr' and 'token::Token' in str(v.get('t')) and self._from_peek(v['p'][0]):
+                env[d] = self.eof
+            elif v['r'] in ('use', 'cast'):
+                c = op_const(v['a'])
+                if isinstance(c, bool):
+                    c = int(c)
+                if isinstance(c, int):
+                    env[d] = c
+                elif op_local(v['a']) in env and not (op_place(v['a']) or (0, []))[1]:
+                    env[d] = env[op_local(v['a'])]
+            elif v['r'] == 'un' and v.get('op') == 'Not' and op_local(v['a']) in env:
+                env[d] = 0 if env[op_local(v['a'])] else 1
+        t = fn.blocks[b]['t']
+        if t['k'] == 'switch':
+            p = op_place(t['on'])
+            if p is not None and not p[1] and p[0] in env:
+                val = env[p[0]]
+                if p[0] not in fn.names:
+                    env.pop(p[0], None)
+                return [(switch_target(t, val), env)]
+            return [(x, env) for x in dict.fromkeys([tb for _v, tb in t['targets']] + [t['else']])]
+        if t['k'] == 'call':
+            dst = t.get('d')
+            if dst and not dst[1]:
+                env.pop(dst[0], None)
+                c = self.summary(callee_name(t) or '')
+                if c is not None:
+                    env[dst[0]] = c
+            return [(t['to'], env)] if t.get('to') is not None else []
+        return [(x, env) for x in term_succs(t)]
+
+    def summary(self, cn):
+        """constant returned at Eof by a bool helper of the parser (None: not constant / not a helper)"""
+        if self.eof is None or 'parser::' not in cn or not re.search(r'::(peek_\w+|is_\w+|check_\w+|at_\w+|matches_\w+|try_consume\w*|consume_if\w*)$', cn):
+            return None
+        if cn in self.summaries:
+            return self.summaries[cn]
+        self.summaries[cn] = None
+        fs = [f for f in self.prog.by_nice.get(cn, []) if f.locals and f.locals[0] == 'bool']
+        if len(fs) != 1:
+            return None
+        f = fs[0]
+        w = _EofWalk(self.prog, f, self.eof, self.summaries)
+        rets = set()
+        seen = set()
+        work = [(0, ())]
+        while work and len(seen) < 4000:
+            b, e = work.pop()
+            if (b, e) in seen:
+                continue
+            seen.add((b, e))
+            t = f.blocks[b]['t']
+            if t['k'] == 'return':
+                env = dict(e)
+                for st in f.blocks[b]['s']:
+                    pass
+                nxt = w.step_env_only(b, dict(e))
+                rets.add(nxt.get(0, '?'))
+                continue
+            for nb, ne in w.step(b, dict(e)):
+                work.append((nb, tuple(sorted(ne.items()))))
+        r = rets.pop() if len(rets) == 1 else None
+        self.summaries[cn] = r if isinstance(r, int) else None
+        return self.summaries[cn]
+
+    def step_env_only(self, b, env):
+        t = self.fn.blocks[b]['t']
+        saved = self.fn.blocks[b]['t']
+        # evaluate the statements of the block without following the terminator
+        fake = dict(t)
+        env2 = dict(env)
+        for st in self.fn.blocks[b]['s']:
+            if 'd' in st and not st['d'][1]:
+                v = st['v']
+                d = st['d'][0]
+                env2.pop(d, None)
+                if v['r'] in ('use', 'cast'):
+                    c = op_const(v['a'])
+                    if isinstance(c, bool):
+                        c = int(c)
+                    if isinstance(c, int):
+                        env2[d] = c
+                    elif op_local(v['a']) in env2:
+                        env2[d] = env2[op_local(v['a'])]
+        return env2
+
+    def cycle(self, comp, breakers):
+        """a cycle of (block, env) states inside comp that avoids the breaker blocks, or None"""
+        graph = {}
+        work = [(b, ()) for b in comp if b not in breakers]
+        while work and len(graph) < 20000:
+            st = work.pop()
+            if st in graph:
+                continue
+            b, e = st
+            outs = []
+            for nb, ne in self.step(b, dict(e)):
+                if nb in comp and nb not in breakers and not self.fn.blocks[nb]['t'].get('cleanup'):
+                    outs.append((nb, tuple(sorted(ne.items()))))
+            graph[st] = outs
+            work.extend(outs)
+        # iterative DFS for a cycle
+        color = {}
+        for root in graph:
+            if root in color:
+                continue
+            stack = [(root, iter(graph[root]))]
+            color[root] = 1
+            path = [root]
+            while stack:
+                node, it = stack[-1]
+                nxt = next(it, None)
+                if nxt is None:
+                    color[node] = 2
+                    stack.pop(); path.pop()
+                    continue
+                if color.get(nxt) == 1:
+                    return [x[0] for x in path[path.index(nxt):]]
+                if nxt not in color:
+                    color[nxt] = 1
+                    stack.append((nxt, iter(graph.get(nxt, []))))
+                    path.append(nxt)
+        return None
